@@ -160,6 +160,14 @@ def rule_PERR(u, rep, scope_files, crate="epserde", exclude_fn=None, only_callee
         _ERR_FILTER[0] = None
 
 
+def _mentions_err_result(t, depth=0):
+    if not isinstance(t, tuple) or depth > 6:
+        return False
+    if is_err_result(t):
+        return True
+    return any(_mentions_err_result(x, depth + 1) for x in t if isinstance(x, tuple))
+
+
 def _rule_PERR(u, rep, scope_files, crate="epserde", exclude_fn=None, only_callees=None):
     n = 0
     for b in u.bodies.values():
@@ -169,6 +177,34 @@ def _rule_PERR(u, rep, scope_files, crate="epserde", exclude_fn=None, only_calle
             continue
         if exclude_fn and exclude_fn(b):
             continue
+        if not only_callees:
+            # iterator adaptors that silently drop the Err items of a sequence of Results
+            acc = []
+            calls_in(b.crate, b.thir["root"], acc)
+            for (dj, rj, e) in acc:
+                nm = dj.get("name")
+                if dj.get("krate") == "core" and nm in ("flat_map", "flatten", "filter_map") and e["args"]:
+                    bad = False
+                    if nm == "flatten":
+                        bad = _mentions_err_result(b.crate.ty(e["args"][0]["ty"]))
+                    else:
+                        for a in e["args"][1:]:
+                            x = a
+                            while x.get("k") in ("Use", "NeverToAny") and "e" in x:
+                                x = x["e"]
+                            if x.get("k") == "Closure":
+                                cb = u.bodies.get(b.crate.def_id(x["d"]))
+                                rt = None
+                                if cb is not None and cb.output is not None:
+                                    rt = cb.crate.ty(cb.output)
+                                elif cb is not None and cb.thir is not None and "ty" in cb.thir["root"]:
+                                    rt = cb.crate.ty(cb.thir["root"]["ty"])
+                                if rt is not None and _mentions_err_result(rt) and nm == "flat_map":
+                                    bad = True
+                    n += 1
+                    rep.oblige(not bad)
+                    if bad:
+                        rep.add("P-ERR", "%s:%s" % (short_fn(b), nm), "in `%s` a sequence of Results goes through `.%s(..)`, which silently drops every Err item: a failed read or write disappears" % (b.n, nm), b.crate.span(e["sp"]))
         sites = []
         walk(b.crate, b.thir["root"], None, sites, None)
         for (e, parent, _c) in sites:
@@ -401,6 +437,9 @@ def rule_reader_refusals(u, rep, mode, rule="ERR-WHO"):
         nm = b.d.get("name") or ""
         f = b.crate.files[b.sp[0]] if b.sp else ""
         is_reader = nm.startswith(want) or (b.d.get("krate") == "epserde" and "deser/helpers.rs" in f and (mode in nm))
+        # the top-level entry point of the mode (header check + the reader): it refuses nothing by itself
+        is_entry = b.d.get("krate") == "epserde" and nm == "deserialize_%s" % mode and "deser/mod.rs" in f
+        is_reader = is_reader or is_entry
         if not is_reader:
             continue
         acc = []
@@ -408,7 +447,7 @@ def rule_reader_refusals(u, rep, mode, rule="ERR-WHO"):
         n += 1
         for (aid, vname, e) in acc:
             if aid == "epserde::deser::Error":
-                ok = vname == "InvalidTag"
+                ok = vname == "InvalidTag" and not (b.d.get("krate") == "epserde" and nm == "deserialize_%s" % mode)
                 rep.oblige(ok)
                 if not ok:
                     rep.add(rule, "%s:%s" % (b.n, vname), "the %s reader `%s` builds Error::%s itself: apart from InvalidTag for a foreign tag, a reader may only pass on failures of the stream; this refuses streams that serialization produces" % (mode, b.n, vname), b.crate.span(e["sp"]))
